@@ -43,6 +43,19 @@ def plan(tier, seed):
         base = ["{proj}", "--output", "{out}"]
         jobs.append({"id": f"seq{q}|batch", "pair": q, "kind": "batch", "ks": ks, "files": files, "argv": base + ["--codemod-include", ",".join(ks)], "monitors": {"snap": False, "pipe": False}})
         jobs.append({"id": f"seq{q}|chain", "pair": q, "kind": "chain", "ks": ks, "files": files, "argv": [], "steps": [base + ["--codemod-include", k] for k in ks], "monitors": {"snap": False, "pipe": False}})
+    if tier != "quick":
+        # the whole default set in one invocation vs one invocation per codemod in the same order, on a project holding seeds of every codemod
+        from codemodder import registry as _reg
+        default_ids = [c.id for c in _reg.load_registered_codemods().match_codemods(None, None, sast_only=False)]
+        for q in range(2):
+            files = {}
+            for k in cids:
+                rs = by[k]
+                for n, r in enumerate(rnd.sample(rs, min(2, len(rs)))): files[f"all/{k.split('/')[1].replace('-', '_')}_{n}.py"] = b64(r["input"].encode())
+            files["requirements.txt"] = b64(b"requests\n")
+            base_ = ["{proj}", "--output", "{out}"]
+            jobs.append({"id": f"default-set{q}|batch", "pair": f"d{q}", "kind": "batch", "ks": default_ids, "files": files, "argv": base_, "monitors": {"snap": False, "pipe": False}})
+            jobs.append({"id": f"default-set{q}|chain", "pair": f"d{q}", "kind": "chain", "ks": default_ids, "files": files, "argv": [], "steps": [base_ + ["--codemod-include", k] for k in default_ids], "monitors": {"snap": False, "pipe": False}})
     from vf.checks import c03
     extra = [(["pixee:python/use-defusedxml", "pixee:python/fix-mutable-params", "pixee:python/use-set-literal"], {"setup.py": b64(c03.SETUP_PY_WITH_TRIGGERS), "app.py": b64(b"import xml.sax\nxml.sax.parse('f')\n")}),
              (["pixee:python/fix-mutable-params", "pixee:python/use-defusedxml"], {"setup.py": b64(c03.SETUP_PY_WITH_TRIGGERS), "app.py": b64(b"import xml.sax\nxml.sax.parse('f')\n")}),
@@ -95,7 +108,7 @@ def judge(job, res):
     return v, st, nt
 
 def main():
-    return run_check("C09", "exploration", plan, judge, "curated interacting codemod sequences + random sequences over projects assembled from seeds; batch run vs chain of single runs; non-trivial = >=2 codemods changed the project", 4, deciding_counters=("_apply",), timeout=900, module=__name__)
+    return run_check("C09", "exploration", plan, judge, "curated interacting sequences, mover x semgrep-detected pairs on a shared file, manifest-is-source and same-package sequences, random sequences (thorough: the whole default set on a project with seeds of every codemod); batch run vs chain of single runs, tree and per-codemod results; non-trivial = >=2 codemods changed the project", 4, deciding_counters=("_apply",), timeout=2400, module=__name__)
 
 if __name__ == "__main__":
     sys.exit(main())
